@@ -53,7 +53,7 @@ def checkQuery (w : World) (t : Tally) : Sexp → Tally
     match tg.str?, decDate now, decOpt decDate s, decOpt decDate e, decBRes r with
     | some target, some now, some start, some stop, some impl =>
       let hist := match mode with | .atom "H" => true | _ => false
-      let ms := cfgs.map fun cfg => modelBalance w cfg target hist now start stop
+      let ms := (cfgs ++ [cfgHeap w.repo fuel]).map fun cfg => modelBalance w cfg target hist now start stop
       let best := (ms.map (bresCmp impl)).foldl max 0
       let first := ms.headD (.crash "none")
       let tie := ms.any fun m => bresCmp first m != 2
